@@ -49,6 +49,37 @@ WalkTree(e, level, parent) ==
            [] OTHER -> << >>,
          KindWord(e), "" >>
 
+(* ---- envelope notation (format.rs: EnvelopeFormat for Envelope / Assertion) --------------------
+   What format() / format_flat() show, as a term: <<"leaf", atom>> | <<"kv", n>> | <<"word", w>> |
+   <<"braces", item>> (a wrapped envelope) | <<"pair", pred, obj>> | <<"node", subject, braces?,
+   type assertions, other assertions, nCompressed, nElided, nEncrypted>>.
+   In a node only the clear assertions are written out: the 'isA' assertions first, then the others
+   (each group ordered by its text - the members are given here as sets tagged with their digests, a
+   renderer that knows no envelope rule lays them out), then one counter per kind of obscured
+   assertion in the order COMPRESSED, ELIDED, ENCRYPTED.  The subject is put in braces iff it is an
+   assertion (looking through node subjects). *)
+ObscuredCase(a) == a[1] \in {"elided", "enc", "comp"}
+RECURSIVE SubjectIsAssertion(_)
+SubjectIsAssertion(e) == CASE e[1] = "assn" -> TRUE [] e[1] = "node" -> SubjectIsAssertion(e[2]) [] OTHER -> FALSE
+IsTypeAssertionItem(a) == a[1] = "assn" /\ Subject(a[2]) = KV(1)
+RECURSIVE Notation(_)
+Notation(e) ==
+  CASE e[1] = "leaf"   -> <<"leaf", e[2]>>
+    [] e[1] = "kv"     -> <<"kv", e[2]>>
+    [] e[1] = "wrap"   -> <<"braces", Notation(e[2])>>
+    [] e[1] = "assn"   -> <<"pair", Notation(e[2]), Notation(e[3])>>
+    [] e[1] = "elided" -> <<"word", "ELIDED">>
+    [] e[1] = "enc"    -> <<"word", "ENCRYPTED">>
+    [] e[1] = "comp"   -> <<"word", "COMPRESSED">>
+    [] e[1] = "node"   ->
+         LET clear == {a \in e[3] : ~ObscuredCase(a)} IN
+         <<"node", Notation(e[2]), SubjectIsAssertion(e[2]),
+           {<<Dg(a), Notation(a)>> : a \in {x \in clear : IsTypeAssertionItem(x)}},
+           {<<Dg(a), Notation(a)>> : a \in {x \in clear : ~IsTypeAssertionItem(x)}},
+           Cardinality({a \in e[3] : a[1] = "comp"}),
+           Cardinality({a \in e[3] : a[1] = "elided"}),
+           Cardinality({a \in e[3] : a[1] = "enc"}) >>
+
 (* elements_count: 1 + children, nothing below obscured elements (= Size) *)
 ElementsCount(e) == Size(e)
 
